@@ -9,4 +9,10 @@ cargo build --offline --target-dir target-dev
 cargo build --offline --target-dir target-alt --features alt
 cargo build --offline --target-dir target-dbg --profile dbg
 cargo build --offline --target-dir target-rel --release
+cd "$ROOT/harness-min"
+n=0
+for feats in "macros" "multi_template" "" "macros,multi_template"; do
+    cargo build --offline --target-dir "target-$n" ${feats:+--features "$feats"}
+    n=$((n+1))
+done
 echo "setup ok"
